@@ -5,6 +5,7 @@ package main
 import (
 	"fmt"
 	"os"
+	"runtime/debug"
 
 	"go.etcd.io/bbolt/zverif/checks"
 	"go.etcd.io/bbolt/zverif/hx"
@@ -24,9 +25,11 @@ var table = map[string]func(tier string) int{
 	"C11": checks.C11,
 	"C12": checks.C12,
 	"C16": checks.C16,
+	"C19": checks.C19,
 }
 
 func main() {
+	debug.SetPanicOnFault(true)
 	if len(os.Args) < 3 {
 		fmt.Fprintln(os.Stderr, "usage: vcheck <property> <quick|thorough> | vcheck worker <kind> | vcheck replay <file>")
 		os.Exit(2)
@@ -47,6 +50,15 @@ func main() {
 				os.Exit(2)
 			}
 		}
+		return
+	case "job":
+		f := checks.JobFuncs[os.Args[2]]
+		if f == nil {
+			fmt.Fprintln(os.Stderr, "unknown job kind")
+			os.Exit(2)
+		}
+		fmt.Println(string(f([]byte(os.Args[3]))))
+		hx.CleanWorkDir()
 		return
 	case "replay":
 		os.Exit(checks.Replay(os.Args[2]))
